@@ -475,6 +475,52 @@ def work(chunk):
     return acc
 
 
+# ---------------------------------------------------------------------------------------------
+# the same misuse in an interpreter started with -O (assert statements are compiled away): the library's guards are
+# function calls (`_assert(cond, msg)` raises ValueError), so the optimisation level of the caller does not matter
+
+_O_CHILD = r"""
+import pickle, sys
+sys.path.insert(0, %r)
+from mc import framework as fw
+fw.setup_paths()
+from mc.props import c11
+cases = pickle.load(sys.stdin.buffer)
+out = []
+for i, case in enumerate(cases):
+    status, text = c11.execute(case)
+    if status != 'ValueError':
+        out.append((i, status, text))
+sys.stdout.buffer.write(b'RESULT' + pickle.dumps((bool(__debug__), out)))
+"""
+
+
+def work_optimised(chunk):
+    import pickle
+    import subprocess
+    import sys
+    acc = fw.Acc()
+    cases = [c for c in chunk if c['kind'] not in ('control', 'fdd-stencil')]
+    r = subprocess.run([sys.executable, '-O', '-c', _O_CHILD % fw.VERIF], input=pickle.dumps(cases), capture_output=True)
+    if r.returncode != 0 or b'RESULT' not in r.stdout:
+        raise fw.HarnessError('python -O child failed: ' + r.stderr.decode('utf8', 'replace')[-400:])
+    debug, bad = pickle.loads(r.stdout.split(b'RESULT', 1)[1])
+    if debug:
+        raise fw.HarnessError('the -O child ran with __debug__ == True')
+    badmap = {i: (st, tx) for i, st, tx in bad}
+    for i, case in enumerate(cases):
+        st = badmap.get(i, ('ValueError', ''))[0]
+        acc.case(('python-O',) + (case_id(case) if isinstance(case_id(case), tuple) else (case_id(case),)), nontrivial=True,
+                 cell='python-O/' + case['kind'], outcome=(case['kind'], st))
+        if i in badmap:
+            c2 = dict(case)
+            c2['python_O'] = True
+            acc.violation('C11:%s:%s:%s:python-O' % (entry_point(case), st, condition(case)), c2,
+                          'in an interpreter started with -O: %s -> %s (expected ValueError)' % (describe(case), badmap[i][1]),
+                          rank=rank_of(case) + 2)
+    return acc
+
+
 def describe(case):
     k = case['kind']
     if k == 'complex':
@@ -641,6 +687,7 @@ def required_cells():
     req += ['short/gen=%s' % g for g in ('Min', 'Max', 'User')]
     req += ['dirdiff', 'fdw/fd_weights_all', 'fdw/fd_weights', 'fdd/len(fx)!=len(x)', 'fdd/n>=len(x)',
             'fdd/len(fx)!=len(x)+n>=len(x)', 'residue']
+    req += ['python-O/%s' % k for k in ('fdw', 'fdd', 'residue', 'path', 'dirdiff', 'mc_n')]
     req += ['path/%s' % e for e in ('Limit', 'Limit-step', 'Residue', 'CStepGenerator', 'Limit-generator', 'Limit-regular-point',
                                     'Limit-regular-array')]
     return req
@@ -649,6 +696,8 @@ def required_cells():
 def run(ctx):
     cases = enumerate_cases(ctx)
     acc = ctx.pmap(work, cases, chunk=200)
+    cheap = [c for c in cases if c['kind'] in ('fdw', 'fdd', 'residue', 'path', 'dirdiff', 'mc_n')]
+    acc.merge(ctx.pmap(work_optimised, cheap, chunk=max(len(cheap) // 8, 1)))
     by_kind = {}
     for c in cases:
         by_kind.setdefault(c['kind'], []).append(c)
@@ -680,6 +729,11 @@ def run(ctx):
 
 
 def replay(case):
+    if case.get('python_O'):
+        c = {k: v for k, v in case.items() if k != 'python_O'}
+        a = work_optimised([c])
+        bad = [r['detail'] for k, (n, recs) in a.viol.items() for r in recs]
+        return not bad, 'python -O: %s -> %s' % (describe(c), bad or 'ValueError')
     if case.get('after_valid_use'):
         c = {k: v for k, v in case.items() if k != 'after_valid_use'}
         fw.fresh_library_state()
